@@ -256,4 +256,15 @@ def install(interp):
             return r
         raise Unsupported(f"einops pattern {pattern!r}")
 
-    interp.namespaces["einops"] = Namespace("einops", dict(rearrange=rearrange))
+    def einsum(*args):
+        """einops.einsum for contractions over a trailing axis of length ONE ('b ... r, b ... r -> b ...'): the receptive
+        axis is represented by one arbitrary element (linearity of the sum), so the contraction is the product."""
+        *ops, pattern = args
+        pat = " ".join(pattern.split())
+        if pat == "b ... r, b ... r -> b ..." and len(ops) == 2 and all(isinstance(o, T) and o.tlen is not None and o.taxis == "last" and tz._is_one(o.tlen) for o in ops):
+            a, b = ops
+            pr = a * b if a.dtype != "bool" else b * a
+            return T(pr.f(z3.IntVal(0)), pr.dtype, None, None, pr.eshape, pr.nan_at(z3.IntVal(0)))
+        raise Unsupported(f"einops.einsum pattern {pattern!r}")
+
+    interp.namespaces["einops"] = Namespace("einops", dict(rearrange=rearrange, einsum=einsum))
